@@ -15,7 +15,7 @@ import (
 func init() { register("C19", checkC19) }
 
 func checkC19(c *core.Ctx) {
-	c.Explainf("C19 (decided clauses: ordering and error discipline of the two main packages; crash points such as power loss between write and rename are NOT decided). R1: no call that truncates a file (os.Create, os.WriteFile, os.OpenFile with O_TRUNC) is applied to the user's target: the only accepted way to replace the -o file or the file being formatted is to write a temporary created with os.CreateTemp and os.Rename it over the target once every fallible step (parse, generate, format, write, close) has succeeded; every function that renames must remove its temporary on its failing paths. R2: the errors of Write/Close on the temporary are returned, none is dropped or deferred away. R3: main exits non-zero exactly on the err != nil arm of run(), and every error produced in run/formatFile is returned, none merely printed. R4 (reported as a fact): whether bebopfmt re-parses its output before replacing the file. R5: the formatter's sibling-agreement rules of C16 (the third sentence of the property rests on them). R6: the buffer collecting the formatted text is fresh storage, not a re-slice of the input.")
+	c.Explainf("C19 (decided clauses: ordering and error discipline of the two main packages; crash points such as power loss between write and rename are NOT decided). R1: no call that truncates a file (os.Create, os.WriteFile, os.OpenFile with O_TRUNC) is applied to the user's target: the only accepted way to replace the -o file or the file being formatted is to write a temporary created with os.CreateTemp and os.Rename it over the target once every fallible step (parse, generate, format, write, close) has succeeded; every function that renames must remove its temporary on its failing paths. R2: the errors of Write/Close on the temporary are returned, none is dropped or deferred away. R3 (typed, not by variable name): main calls os.Exit with a non-zero constant exactly on the arm where the error returned by run() is not nil; in every function of the main packages that returns an error, each `if v != nil` arm over an error variable ends in a return of a non-nil error, or records the failure in a variable that is written only inside such arms and is turned into an error return later (the accumulating idiom) — an error that is printed and then overwritten by the next file is reported as swallowed. R4 (reported as a fact): whether bebopfmt re-parses its output before replacing the file. R5: the formatter's sibling-agreement rules of C16 (the third sentence of the property rests on them). R6: the buffer collecting the formatted text is fresh storage, not a re-slice of the input.")
 	p := loadRepo(c)
 	if p == nil {
 		return
